@@ -126,6 +126,15 @@ def generate(rng, tier):
             n = rng.randint(2, 7)
             out.append(dict(kind='fixed', call='fixed', M=M, n_cond=nc, data8=[[rng.randint(1, 40) for _ in range(P)] for _ in range(n)],
                             models8=[[rng.randint(1, 40) for _ in range(P)] for _ in range(M)], method=rng.choice(['cosine', 'corr'])))
+    # always present (rare under random generation): a fixed and a crossvalidation result whose FIRST model has no defined
+    # evaluation while the others do (seeded change C06-m10)
+    import copy
+    for cv in ('fixed', 'crossvalidation'):
+        base = next((c for c in out if c.get('call') == 'result' and c['cv'] == cv and c['M'] >= 2 and c['nan_model'] is None), None)
+        if base is not None:
+            c = copy.deepcopy(base)
+            c.update(nan_model=0, nan_entries=[])
+            out.append(c)
     return out
 
 
